@@ -27,7 +27,7 @@ def mk(db, ref, rng, name, ncols, nrows, api):
         vals = [Val("i", rng.choice([0, 1, 2, 3, 4, 5, 7])) if t == "i" else Val("s", rng.choice([b"a", b"b", b"ab", b""])) for t in types]
         if rng.random() < 0.1 and len(types) > 1 and types[-1] == "s" and kinds[-1] == "n":
             vals[-1] = Val("n")         # NULLs in non-key, non-indexed columns (NULL join keys: see the probe for F-NULL-JOIN)
-        if all(v.kind != "n" for v in vals):
+        if all(v.kind != "n" for v in vals) and nrows < 100:
             db.sql("INSERT INTO %s(%s) VALUES (%s);" % (name, ",".join(names), ", ".join(v.sql() for v in vals)))
         else:
             db.cmd("rawinsert %s %s" % (name, " ".join(v.tok() for v in vals)))
@@ -36,7 +36,7 @@ def mk(db, ref, rng, name, ncols, nrows, api):
 
 
 def run(res, replay=None):
-    res.rule = ("2-3 tables (SQL DDL with skip-list indexes, or catalog API with and without indexes) of 0-25 rows with duplicate and missing join keys, NULL keys in non-indexed columns and empty tables; "
+    res.rule = ("2-3 tables (SQL DDL with skip-list indexes, or catalog API with and without indexes) of 0-25 rows (every sixth schema: one table of 300-500 rows, so that the hash join's build side spans several temporary pages) with duplicate and missing join keys, NULL keys in non-indexed columns and empty tables; "
                 "queries 'SELECT cols FROM t1 JOIN t2 ON t1.x = t2.y [WHERE filters]' and 'FROM t1, t2[, t3] WHERE equalities AND filters', select lists in random order; statistics refreshed "
                 "at random moments (stale, empty, exact) so that hash / index / nested-loop joins in both orientations are chosen; answers compared as multisets with the reference; "
                 "non-trivial = distinct (query, plan shape)")
@@ -56,11 +56,14 @@ def run(res, replay=None):
                 res.oracle_failures.append(("open", "database does not start")); continue
             ntab = rng.choice([2, 2, 3])
             tabs = {}
+            # every sixth schema has one table of 300-500 rows: the hash join's build side then spans several temporary pages
+            big = rng.randrange(ntab) if si % 6 == 1 else -1
             for i in range(ntab):
                 name = "t" + "abc"[i]
                 if rng.random() < 0.3:
                     db.cmd("stats")
-                m = mk(db, ref, rng, name, rng.randrange(2, 4), rng.choice([0, 1, 5, 12, 25]), api=rng.random() < 0.5)
+                nrows = rng.choice([300, 500]) if i == big else rng.choice([0, 1, 5, 12] if big >= 0 else [0, 1, 5, 12, 25])
+                m = mk(db, ref, rng, name, rng.randrange(2, 4), nrows, api=rng.random() < 0.5)
                 if m is None:
                     break
                 tabs[name] = m
